@@ -273,81 +273,48 @@ fn a2_seq_step_16() {
 }
 
 // ---------------------------------------------------------------------------------------
-// A3: total_map_size = keys-and-values as two seq runs
+// A3: total_map_size against the contract of next_value_size
 // ---------------------------------------------------------------------------------------
 
-struct MapLog {
-	calls: u32,
-	ptr: [*const u8; 2],
-	len: [usize; 2],
-	count: [u32; 2],
-	depth: [usize; 2],
-	ret_ok: [bool; 2],
-	ret: [usize; 2],
-	err: [u8; 2],
-}
-
-static mut MAP: MapLog = MapLog {
-	calls: 0,
-	ptr: [core::ptr::null(); 2],
-	len: [0; 2],
-	count: [0; 2],
-	depth: [0; 2],
-	ret_ok: [false; 2],
-	ret: [0; 2],
-	err: [0; 2],
-};
-
-fn seq_contract_a3<N: Into<u32>>(input: &[u8], count: N, d: usize) -> Result<usize, ReadSizeError> {
-	unsafe {
-		let k = if MAP.calls == 0 { 0 } else { 1 };
-		MAP.ptr[k] = input.as_ptr();
-		MAP.len[k] = input.len();
-		MAP.count[k] = count.into();
-		MAP.depth[k] = d;
-		MAP.calls += 1;
-		if kani::any() {
-			let t: usize = kani::any();
-			kani::assume(t <= input.len());
-			MAP.ret_ok[k] = true;
-			MAP.ret[k] = t;
-			Ok(t)
-		} else {
-			let e = any_err();
-			MAP.err[k] = err_code(&e);
-			Err(e)
-		}
-	}
-}
-
+/// A3: a map of `pairs` entries is 2 * pairs values laid end to end, keys and values alike one level deeper than the
+/// map itself. Stated against the contract of next_value_size only (the same online monitor as A2), so it does not
+/// care HOW the implementation walks the entries - two runs of `pairs` values, entry by entry, or otherwise.
 #[kani::proof]
-#[kani::stub(total_seq_size, seq_contract_a3)]
-#[kani::unwind(3)]
+#[kani::stub(next_value_size, nvs_contract_a2)]
+#[kani::unwind(11)]
 fn a3_map_step() {
 	let buf: [u8; 8] = kani::any();
 	let len: usize = kani::any();
 	kani::assume(len <= 8);
 	let d: usize = kani::any();
+	kani::assume(d >= 1); // established by A1: the children are only reached with the caller's d >= 1
 	let pairs: u32 = kani::any();
 	let input = &buf[..len];
-	let r = total_map_size(input, pairs, d);
-	let m = unsafe { &MAP };
-	assert!(m.calls >= 1 && m.calls <= 2);
-	assert!(m.ptr[0] == input.as_ptr() && m.len[0] == len && m.count[0] == pairs && m.depth[0] == d, "A3: first run over the whole slice");
-	if !m.ret_ok[0] {
-		assert!(m.calls == 1);
-		assert!(matches!(&r, Err(e) if err_code(e) == m.err[0]), "A3: first error propagated");
-		return;
+	unsafe {
+		SEQ.base = input.as_ptr();
+		SEQ.total_len = len;
+		SEQ.expect_depth = d - 1;
 	}
-	assert!(m.calls == 2, "A3: two runs of `pairs` elements");
-	assert!(m.ptr[1] == input[m.ret[0]..].as_ptr() && m.len[1] == len - m.ret[0], "A3: second run starts where the first ended");
-	assert!(m.count[1] == pairs && m.depth[1] == d, "A3: same count and depth for both runs");
-	if m.ret_ok[1] {
-		assert!(matches!(r, Ok(n) if n == m.ret[0] + m.ret[1] && n <= len), "A3: size = first + second");
-		kani::cover!(m.ret[0] >= 1 && m.ret[1] >= 1, "A3 both runs non-empty");
-	} else {
-		assert!(matches!(&r, Err(e) if err_code(e) == m.err[1]), "A3: second error propagated");
-		kani::cover!(true, "A3 second run fails");
+	let r = total_map_size(input, pairs, d);
+	let (off, calls, bad, failed, fail_err) = unsafe { (SEQ.off, SEQ.calls, SEQ.bad, SEQ.failed, SEQ.fail_err) };
+	assert!(!bad, "A3: key or value k is sized on exactly the bytes after the earlier keys and values, one level deeper than the map");
+	let wanted = 2 * (pairs as u64);
+	match r {
+		Ok(n) => {
+			assert!(!failed, "A3: an entry's error is never swallowed");
+			assert!(n == off && n <= len, "A3: total = sum of the sizes of all keys and values");
+			assert!(calls as u64 == wanted, "A3: exactly 2 * pairs values are sized");
+			kani::cover!(pairs == 2 && n == len, "A3 two entries fill the slice");
+		}
+		Err(e) => {
+			if failed {
+				assert!(err_code(&e) == fail_err, "A3: an entry's error is propagated unchanged");
+			} else {
+				assert!(matches!(e, ReadSizeError::Truncated), "A3: running out of bytes is Truncated");
+				assert!(off == len && (calls as u64) < wanted, "A3: Truncated only when the slice is exhausted early");
+				kani::cover!(pairs == u32::MAX, "A3 huge declared count is rejected without looping");
+			}
+		}
 	}
 }
 
